@@ -23,6 +23,7 @@ type HarnessRun struct {
 	GrowSlack    int
 	OpaqueStrMax int
 	SkipInit     map[string]bool
+	RunInitFuncs map[string]bool
 	NoMerge      bool
 	Lim          Limits
 	Workers      int
@@ -185,6 +186,28 @@ func (h *HarnessRun) Run() *HarnessResult {
 	done := false
 
 	var wg sync.WaitGroup
+	if h.Verbose {
+		stop := make(chan struct{})
+		defer close(stop)
+		go func() {
+			tk := time.NewTicker(15 * time.Second)
+			defer tk.Stop()
+			for {
+				select {
+				case <-stop:
+					return
+				case <-tk.C:
+					mu.Lock()
+					fmt.Fprintf(os.Stderr, "  [%s %.0fs] paths=%d queue=%d active=%d done=%d infeasible=%d ended=%d notenc=%d budget=%d viol=%d maxdec=%d\n",
+						h.Name, time.Since(t0).Seconds(), res.Paths, len(queue), active, res.PathsDone, res.Infeasible, res.Ended, res.NotEncoded, res.Budget, len(res.Violations), res.MaxDecision)
+					for m, n := range res.Problems {
+						fmt.Fprintf(os.Stderr, "     problem: %s (x%d)\n", m, n)
+					}
+					mu.Unlock()
+				}
+			}
+		}()
+	}
 	for w := 0; w < h.Workers; w++ {
 		wg.Add(1)
 		go func(wid int) {
@@ -196,8 +219,8 @@ func (h *HarnessRun) Run() *HarnessResult {
 				mu.Unlock()
 				return
 			}
-			if h.SolverLog != "" && wid == 0 {
-				f, _ := os.Create(h.SolverLog)
+			if h.SolverLog != "" {
+				f, _ := os.Create(fmt.Sprintf("%s.%d", h.SolverLog, wid))
 				sol.Log = f
 				defer f.Close()
 			}
